@@ -550,7 +550,21 @@ def install(lib):
         return type(x)(1)
 
     def np_asarray(ex, x, *a, **k):
+        dt = k.get("dtype", a[0] if a else None)
+        if isinstance(dt, TypeTag) and dt.name == "integer-result" and (is_sym(x) or is_num(x)):
+            # a value cast to an integer dtype is truncated toward zero (numpy / jax casting of floats to ints)
+            used(ex, "casting a float to an integer dtype truncates toward zero")
+            z = toz(x)
+            if z.sort() == REAL:
+                return z3.If(z >= 0, z3.ToReal(z3.ToInt(z)), -z3.ToReal(z3.ToInt(-z)))
+            return z
         return np_array(ex, x)
+
+    def np_result_type(ex, *xs):
+        """jnp.result_type of scalars: an integer dtype exactly when every operand is integer-typed (python int / integer array), else a float dtype"""
+        used(ex, "jnp.result_type(*xs) is an integer dtype iff every operand is integer-typed")
+        allint = all((isinstance(v, int) and not isinstance(v, bool)) or (is_sym(v) and v.sort() == INT) for v in xs)
+        return TypeTag("integer-result" if allint else "float-result")
 
     def np_stack(ex, xs, axis=0):
         """jnp.stack of k scalars / leaves along a new leading axis: an array of length k whose i-th row is xs[i]"""
@@ -745,7 +759,7 @@ def install(lib):
             return z3.Function("vector_min", Leaf, Leaf)(x)
         return x
 
-    common = dict(stack=np_stack, argmax=np_argmax, full=np_full, issubdtype=np_issubdtype, floating=TypeTag("floating"), integer=TypeTag("integer"), all=np_all, any=np_any, flip=np_flip, searchsorted=np_searchsorted, max=np_amax, min=np_amin, amax=np_amax, amin=np_amin, zeros=np_zeros, interp=np_interp, argwhere=np_argwhere, ones=np_ones, arange=np_arange, array=np_array, asarray=np_asarray, where=np_where, clip=np_clip, roll=np_roll, take=np_take, maximum=np_maximum, minimum=np_minimum,
+    common = dict(result_type=np_result_type, stack=np_stack, argmax=np_argmax, full=np_full, issubdtype=np_issubdtype, floating=TypeTag("floating"), integer=TypeTag("integer"), all=np_all, any=np_any, flip=np_flip, searchsorted=np_searchsorted, max=np_amax, min=np_amin, amax=np_amax, amin=np_amin, zeros=np_zeros, interp=np_interp, argwhere=np_argwhere, ones=np_ones, arange=np_arange, array=np_array, asarray=np_asarray, where=np_where, clip=np_clip, roll=np_roll, take=np_take, maximum=np_maximum, minimum=np_minimum,
                   isnan=np_isnan, ceil=np_ceil, floor=np_floor, sqrt=np_sqrt, zeros_like=np_zeros_like, ones_like=np_ones_like,
                   logical_and=np_logical("and"), logical_or=np_logical("or"), logical_not=np_logical_not, exp=np_exp, log=np_log, tanh=np_tanh,
                   arctanh=np_arctanh, abs=b_abs, square=lambda ex, x: ex.binop(ast.Mult(), x, x),
